@@ -164,6 +164,11 @@ package decorator
 //@   requires validDC(c) && validDCInformers(c) && controllerRef != nil
 //@   safety C13
 //@   bind call GetObject: got, getErr
+//@   bind call GroupKindMap.Get: resource
+//@   // the owner is resolved by group and kind only; the informer is the one of the *configured* parent resource (its version),
+//@   // whatever version the owner reference was written with
+//@   at ParseGroupVersion#2(s) [C14]: resource != nil && s == resource.APIVersion
+//@   at GetObject(inf, ns, n) [C14]: n == controllerRef.Name && ns == ite(resource.Namespaced, childNamespace, "") && count(ParseGroupVersion) == 2
 //@   ensures [C14] parent != nil ==> parent.GetName() == controllerRef.Name && parent.GetUID() == controllerRef.UID && dcInterestedIn(c, parent) && cached(parent)
 //@   ensures [C14] called(GetObject) && getErr == nil && got.GetUID() == controllerRef.UID && dcInterestedIn(c, got) ==> parent == got
 
